@@ -382,6 +382,40 @@ theorem closed_entry (e : Entry) : Closed 0 (entryProg e) := by
   | gClear => exact closed_mono closed_gClear (by decide)
   | gCleanupStale l => exact closed_mono (closed_gCleanupStale l) (by decide)
 
+/-! ### critical sections: the wait-for graph is touched inside the lock-table section -/
+
+theorem gut_once (H : Held) (r : Res) (m : Mode) (rest : List Act) (h : holdsTable H = true) :
+    graphUnderTable H (once r m ++ rest) = graphUnderTable H rest := by
+  simp only [once, List.cons_append, List.nil_append, graphUnderTable, h, Bool.or_true, Bool.true_and,
+    List.erase_cons_head]
+
+theorem gut_gAddWait (H : Held) (f p : Bool) (rest : List Act) (h : holdsTable H = true) :
+    graphUnderTable H (gAddWait false f p ++ rest) = graphUnderTable H rest := by
+  cases f <;> cases p <;>
+    simp [gAddWait, List.append_assoc, gut_once, h]
+
+theorem gut_addWaits (H : Held) (l : List (Bool × Bool)) (rest : List Act) (h : holdsTable H = true) :
+    graphUnderTable H (l.flatMap (fun fp => gAddWait false fp.1 fp.2) ++ rest) = graphUnderTable H rest := by
+  induction l with
+  | nil => simp
+  | cons a r ih => simp only [List.flatMap_cons, List.append_assoc, gut_gAddWait H a.1 a.2 _ h, ih]
+
+theorem gut_gRemoveTx (H : Held) (oi : Bool × Bool) (rest : List Act) (h : holdsTable H = true) :
+    graphUnderTable H (gRemoveTx oi ++ rest) = graphUnderTable H rest := by
+  obtain ⟨o, i⟩ := oi
+  cases o <;> cases i <;>
+    simp [gRemoveTx, List.append_assoc, gut_once, h]
+
+theorem graphUnderTable_lmTryLockWT (blockers : Option (List (Bool × Bool))) (oi : Bool × Bool) :
+    graphUnderTable [] (lmTryLockWT blockers oi) = true := by
+  have h0 : holdsTable [(Res.txLocks, Mode.write), (Res.locks, Mode.write)] = true := by decide
+  unfold lmTryLockWT
+  simp only [List.cons_append, List.nil_append, graphUnderTable, isGraphRes, Bool.not_false, Bool.true_or,
+    Bool.true_and]
+  cases blockers with
+  | some l => simp only [gut_addWaits _ l _ h0]; decide
+  | none => simp only [gut_gRemoveTx _ oi _ h0]; decide
+
 theorem threadProg_ordered (calls : List Entry) : (Thread.mk [] (threadProg calls)).Ordered :=
   closed_flatMap _ _ closed_entry [] (fun _ h => absurd h (List.not_mem_nil))
 
